@@ -432,9 +432,14 @@ def judge_inherit(case):
     head = ("from __future__ import annotations\n" if style == "future" else "") + "import utype\nfrom typing import *\n"
     later = f"class {L}(utype.{base}):\n    w: int\n"
 
+    levels = case.get("levels", 2)
+    if levels not in (2, 3):
+        raise HarnessError("bad levels")
+
     def decls(ref):
-        return (f"class {B}(utype.{base}):\n    v: int = 0\n    nxt: {ann(wrap, ref)} = {DEFAULT[wrap]}\n"
-                f"class {S}({B}):\n    x: int = 0\n")
+        mid = f"class Mid{_n[0]}({B}):\n    y: int = 0\n" if levels == 3 else ""     # a class in between with nothing pending of its own
+        return (f"class {B}(utype.{base}):\n    v: int = 0\n    nxt: {ann(wrap, ref)} = {DEFAULT[wrap]}\n" + mid +
+                f"class {S}({'Mid%d' % _n[0] if levels == 3 else B}):\n    x: int = 0\n")
     fwd = load(head + decls(repr(L) if style == "plain" else L) + later, "inf")
     ref = load(head + later + decls(L), "inr")
     try:
@@ -656,6 +661,9 @@ def campaign(ctx):
                         continue
                     ctx.ev()
                     body({"part": "inherit", "wrap": wrap, "first": first, "base": base, "style": style})
+                    if style == "plain":
+                        ctx.ev()
+                        body({"part": "inherit", "wrap": wrap, "first": first, "base": base, "style": style, "levels": 3})
     # declarations local to a function that name a module-level class defined later: enumerated completely
     for wrap in WRAPS:
         for what in ("class", "param", "return", "varargs"):
